@@ -593,6 +593,12 @@ func registerStd() {
 	reg(func(ex *Exec, fn *ssa.Function, args []Value, caller *frame) Value {
 		return nil
 	}, "time.Sleep")
+	// math/rand global source: an arbitrary non-negative value (environment)
+	reg(func(ex *Exec, fn *ssa.Function, args []Value, caller *frame) Value {
+		v := ex.freshVar("rand", 64, "env")
+		ex.assume(ex.st.Sle(zero64, v))
+		return v
+	}, "math/rand.Int63")
 
 	// errors in init of heavy packages
 	opq := func(ex *Exec, fn *ssa.Function, args []Value, caller *frame) Value {
